@@ -3,6 +3,7 @@ package checks
 import (
 	"fmt"
 	"math/rand"
+	"os"
 	"strings"
 
 	"verif/internal/core"
@@ -149,6 +150,18 @@ func c13GenNested(r *rand.Rand) any {
 
 func c13NullCase(ctx *core.Ctx, ref core.CaseRef, r *rand.Rand) { c13NullCaseP(ctx, ref, r, false) }
 
+// c13LikeNullCase joins a NULL test with a LIKE over another column by AND / OR: `t LIKE 'a%' OR <operand> IS
+// NULL`.  A LIKE over a NULL or missing text is UNKNOWN (never true), so the NULL test alone decides an OR when
+// it is true; rows whose t is not a text are not judged.
+func c13LikeNullCase(ctx *core.Ctx, ref core.CaseRef, r *rand.Rand) {
+	c13LikeMode = true
+	defer func() { c13LikeMode = false }()
+	c13NullCaseP(ctx, ref, r, true)
+}
+
+// c13LikeMode is only set by the (sequentially run) stream c13likenull.
+var c13LikeMode bool
+
 // c13NullCaseP with pair = true tests TWO columns in one predicate: `<operand> IS NULL OR t IS NULL`,
 // `<operand> IS NOT NULL AND t IS NOT NULL`, ... (each test must look at its own column).
 func c13NullCaseP(ctx *core.Ctx, ref core.CaseRef, r *rand.Rand, pair bool) {
@@ -157,6 +170,13 @@ func c13NullCaseP(ctx *core.Ctx, ref core.CaseRef, r *rand.Rand, pair bool) {
 	if pair && site == "having" {
 		site = "where"
 	}
+	like := pair && c13LikeMode
+	if like && site == "select" {
+		site = "case" // sites with a two-valued answer
+	}
+	likeFirst := r.Intn(3) > 0
+	likePat := pick(r, []string{"a%", "a_", "%b%", "a_c", "_", "%"}) // the lowering differs with the pattern's shape
+	likeRe := c13LikeRef(likePat)
 	i /= len(c13SiteNames)
 	op := []string{"IS NULL", "IS NOT NULL"}[i%2]
 	i /= 2
@@ -180,7 +200,19 @@ func c13NullCaseP(ctx *core.Ctx, ref core.CaseRef, r *rand.Rand, pair bool) {
 		w := "-"
 		if null, judged := od.ref(row); judged {
 			first := null != isNot
-			if pair {
+			if like {
+				tv, ok := row["t"]
+				ts, isText := tv.(string)
+				second := isText && likeRe.MatchString(ts) // t LIKE p; UNKNOWN counts as not true
+				switch {
+				case ok && tv != nil && !isText:
+					judged = false // LIKE over a number or a boolean is not what the statement is about
+				case strings.EqualFold(conj, "or"):
+					first = first || second
+				default:
+					first = first && second
+				}
+			} else if pair {
 				tv, ok := row["t"]
 				second := (!ok || tv == nil) != isNot
 				if strings.EqualFold(conj, "or") {
@@ -189,10 +221,12 @@ func c13NullCaseP(ctx *core.Ctx, ref core.CaseRef, r *rand.Rand, pair bool) {
 					first = first && second
 				}
 			}
-			if first {
+			switch {
+			case !judged:
+			case first:
 				w = "T"
 				nT++
-			} else {
+			default:
 				w = "F"
 				nF++
 			}
@@ -231,7 +265,15 @@ func c13NullCaseP(ctx *core.Ctx, ref core.CaseRef, r *rand.Rand, pair bool) {
 	if pair {
 		cond = "$X " + op + " " + conj + " t " + op
 	}
+	if like && likeFirst {
+		cond = "t LIKE '" + likePat + "' " + conj + " $X " + op
+	} else if like {
+		cond = "$X " + op + " " + conj + " t LIKE '" + likePat + "'"
+	}
 	sql := c13Sites[site].sql(od.Expr, cond)
+	if os.Getenv("C13_DEBUG") != "" && like {
+		fmt.Fprintln(os.Stderr, "c13likenull:", sql, "T", nT, "F", nF)
+	}
 	cs := &c13Case{CaseRef: ref, Site: site, Op: op, Operand: od.Expr, SQL: sql, NTexts: len(rows)}
 	opAttr := "IS NULL"
 	if isNot {
@@ -240,6 +282,10 @@ func c13NullCaseP(ctx *core.Ctx, ref core.CaseRef, r *rand.Rand, pair bool) {
 	base := map[string]string{"site": site, "op": opAttr, "operand": od.Name, "spelling": spelling}
 	if pair {
 		base["second_test"] = strings.ToUpper(conj) + " t " + opAttr
+	}
+	if like {
+		base["second_test"] = strings.ToUpper(conj) + " t LIKE '" + likePat + "'"
+		base["like_written_first"] = fmt.Sprint(likeFirst)
 	}
 	attrsOf := func(i int, exp, g string) map[string]string {
 		m := map[string]string{"expected": exp, "got": g, "value_kind": od.kind(rows[i])}
